@@ -1,7 +1,7 @@
 (* C06 -- hierarchical composition is functional substitution.  Statements only; proofs in Proofs/ComposeProofs.v,
    Proofs/FillProofs.v, Proofs/FastEvalProofs.v. *)
 From stdpp Require Import strings gmap pmap sets.
-From CG Require Import Base.Cases Base.Compose Base.Oracle Model.Compose6 Model.FastEval Proofs.ComposeProofs Proofs.FillProofs Proofs.BlackboxProofs Proofs.FastEvalProofs Proofs.SweepProofs.
+From CG Require Import Base.Cases Base.Compose Base.Oracle Model.Compose6 Model.FastEval Proofs.ComposeProofs Proofs.NoStripProofs Proofs.FillProofs Proofs.BlackboxProofs Proofs.FastEvalProofs Proofs.SweepProofs.
 Open Scope string_scope.
 
 (* add_subcircuit(sc, name, connections) with the default strip_io, whenever the call is accepted: the parent's name,
@@ -123,7 +123,27 @@ Theorem C06_add_blackbox : ∀ P d inst ins outs conns P',
 Proof. exact add_blackbox_sem. Qed.
 Print Assumptions C06_add_blackbox.
 
-(* Not stated as a theorem: add_subcircuit with strip_io=False (non-default; decided per recorded result by the oracle). *)
+(* add_subcircuit(..., strip_io=False): the child's io nodes are kept as they are -- its inputs stay `input` nodes and become inputs of
+   the parent, its output marks stay.  An `input` node cannot be driven, so the call is accepted only when every attachment of a child
+   input is empty; child outputs are attached as before.  The copy then computes sc itself (not strip_io(sc)). *)
+Theorem C06_add_subcircuit_nostrip_struct : ∀ P SC name conns P',
+  add_subcircuit_gen false P SC name conns = (P', Done) →
+  c_name P' = c_name P ∧
+  c_bbs P' = kmap (pre name) (c_bbs SC) ∪ c_bbs P ∧
+  inputs (c_g P') = inputs (c_g P) ∪ set_map (pre name) (inputs (c_g SC)) ∧
+  outputs (c_g P') = outputs (c_g P) ∪ set_map (pre name) (outputs (c_g SC)) ∧
+  dom (c_g P') = dom (c_g P) ∪ set_map (pre name) (dom (c_g SC)) ∧
+  (∀ kv, kv ∈ conns → kv.1 ∈ inputs (c_g SC) → kv.2 = []).
+Proof. exact add_subcircuit_nostrip_struct. Qed.
+Print Assumptions C06_add_subcircuit_nostrip_struct.
+
+Theorem C06_add_subcircuit_nostrip : ∀ P SC name conns P',
+  add_subcircuit_gen false P SC name conns = (P', Done) → out_targets_free P SC conns →
+  ∀ v, consistent (c_g P') v ↔
+       consistent (c_g P) v ∧ consistent (c_g SC) (v ∘ pre name) ∧ Forall (conn_ok SC name v) conns.
+Proof. exact add_subcircuit_nostrip_sem. Qed.
+Print Assumptions C06_add_subcircuit_nostrip.
+
 
 (* building blocks named in the design: driving a free buffer adds exactly the constraint v x = v u *)
 Theorem C06_drive_node : ∀ c u x i v, c !! x = Some i → (n_ty i = Buf ∨ n_ty i = BbIn) → n_fi i ⊆ {[u]} →
@@ -199,3 +219,9 @@ Proof. repeat split; apply (bool_decide_unpack _); vm_compute; exact I. Qed.
 Example C06_example_strip : ∃ R, strip_blackboxes exPF [] = Ok R ∧ inputs (c_g R) = {["x"; "f_q"]} ∧ outputs (c_g R) = {["y"; "f_d"]}.
 Proof. eexists (mk "top" [("x", Input, false, []); ("f_d", Buf, true, ["x"]); ("f_q", Input, false, []); ("y", Buf, true, ["f_q"])] []).
   repeat split; apply (bool_decide_unpack _); vm_compute; exact I. Qed.
+
+(* strip_io=False on the first example: the inverter's input u0_a stays an input of the parent, its output drives h *)
+Example C06_example_nostrip :
+  (add_subcircuit_gen false exP exSC "u0" [("o", ["h"])]).2 = Done ∧
+  elements (inputs (c_g (add_subcircuit_gen false exP exSC "u0" [("o", ["h"])]).1)) ≡ₚ ["x"; "u0_a"].
+Proof. split; [vm_compute; reflexivity|]. apply (bool_decide_unpack _). vm_compute. exact I. Qed.
